@@ -345,8 +345,14 @@ func lookupReviewed(exact map[string]Reviewed, all []Reviewed, key string) (Revi
 			}
 		}
 	}
+	// "<obligation>@*": the requirement of one named obligation, at whichever caller it surfaces
+	if i := strings.Index(key, "@"); i > 0 {
+		if rv, ok := exact[key[:i]+"@*"]; ok {
+			return rv, true
+		}
+	}
 	for _, rv := range all {
-		// keys of requirements that fail at a caller ("...@caller") always need an exact entry
+		// keys of requirements that fail at a caller ("...@caller") need an exact or an "@*" entry
 		if strings.HasSuffix(rv.Key, "|*") && strings.Count(rv.Key, "|") == 2 && !strings.Contains(key, "@") && strings.HasPrefix(key, strings.TrimSuffix(rv.Key, "*")) {
 			return rv, true
 		}
